@@ -23,9 +23,9 @@
 (* partitions replaced by the table's grouping columns; or                 *)
 (*   [k |-> "err", cls |-> "<exception class>"]                            *)
 (***************************************************************************)
-EXTENDS Values, FiniteSetsExt, SequencesExt
+EXTENDS Strings, FiniteSetsExt, SequencesExt
 
-Types == {"int", "float", "bool", "str", "null"}
+Types == {"int", "float", "bool", "str", "null", "date", "datetime"}
 
 ErrE(cls) == [k |-> "err", cls |-> cls]
 IsErr(e)  == e.k = "err"
@@ -52,6 +52,7 @@ JoinAll(ts) == IF Len(ts) = 1 THEN ts[1] ELSE JoinTy(ts[1], JoinAll(Tail(ts)))
 Comparable(t) == t \in {"int", "float", "bool", "str", "null"}
 Orderable(t)  == t \in {"int", "float", "bool", "null"}   \* strings: equality only in this model
 
+StrOps == {"str_starts_with", "str_ends_with", "str_contains", "str_replace_all", "str_len"}
 ElemOps == {"add", "sub", "mul", "truediv", "floordiv", "mod", "neg", "pos", "abs",
             "eq", "ne", "lt", "le", "gt", "ge", "and", "or", "xor", "not",
             "is_null", "is_not_null", "fill_null", "is_in", "coalesce",
@@ -85,6 +86,9 @@ FnTy(op, ts) ==
       [] op = "hsum" -> IF n >= 2 /\ j \in {"int", "float", "str"} THEN j ELSE IF j = "null" THEN "AMBIG" ELSE "ERR"
       [] op \in {"hany", "hall"} -> IF n >= 2 /\ j \in {"bool", "null"} THEN "bool" ELSE "ERR"
       [] op = "clip" -> IF n = 3 /\ j # "ERR" /\ Comparable(j) THEN (IF j = "null" THEN "AMBIG" ELSE j) ELSE "ERR"
+      [] op \in {"str_starts_with", "str_ends_with", "str_contains"} -> IF n = 2 /\ j \in {"str", "null"} THEN "bool" ELSE "ERR"
+      [] op = "str_replace_all" -> IF n = 3 /\ j \in {"str", "null"} THEN "str" ELSE "ERR"
+      [] op = "str_len" -> IF n = 1 /\ j \in {"str", "null"} THEN "int" ELSE "ERR"
       [] OTHER -> "ERR"
 
 AggTy(op, t) ==
@@ -109,7 +113,8 @@ CastOk(from, to) ==
     \/ from = to
     \/ from = "null"
     \/ <<from, to>> \in {<<"int", "float">>, <<"float", "int">>, <<"bool", "int">>, <<"bool", "float">>,
-                         <<"int", "str">>, <<"float", "str">>, <<"str", "int">>, <<"str", "float">>}
+                         <<"int", "str">>, <<"float", "str">>, <<"str", "int">>, <<"str", "float">>,
+                         <<"date", "datetime">>, <<"datetime", "date">>, <<"date", "str">>, <<"datetime", "str">>}
 
 (* Elaboration context: Cx = [ty : ColId -> Type, fk : ColId -> kind,      *)
 (*   scope : set of ColId usable, byname : Name -> ColId for visible cols   *)
@@ -237,7 +242,7 @@ ApplyFn(e, vs) ==          \* e: elaborated fn node, vs: argument values (alread
     IN
     CASE op = "add" -> IF at = "float" THEN RatAddV(pv[1], pv[2])
                        ELSE IF at = "bool" THEN Strict2(vs[1], vs[2], (IF vs[1] = TRUE THEN 1 ELSE 0) + (IF vs[2] = TRUE THEN 1 ELSE 0))
-                       ELSE IF at = "str" THEN UNDEF      \* string concatenation lives in Strings.tla
+                       ELSE IF at = "str" THEN Strict2(vs[1], vs[2], vs[1] \o vs[2])
                        ELSE AddV(vs[1], vs[2])
       [] op = "sub" -> IF at = "float" THEN RatSubV(pv[1], pv[2]) ELSE SubV(vs[1], vs[2])
       [] op = "mul" -> IF at = "float" THEN RatMulV(pv[1], pv[2]) ELSE MulV(vs[1], vs[2])
@@ -270,6 +275,12 @@ ApplyFn(e, vs) ==          \* e: elaborated fn node, vs: argument values (alread
       [] op = "hmax" -> ExtV(at, pv, TRUE)
       [] op = "hmin" -> ExtV(at, pv, FALSE)
       [] op = "hsum" -> IF SeqAnyU(pv) THEN UNDEF ELSE IF SeqAnyN(pv) THEN NULL ELSE FoldAdd(at, pv)
+      [] op = "str_starts_with" -> Strict2(vs[1], vs[2], StartsWith(vs[1], vs[2]))
+      [] op = "str_ends_with"   -> Strict2(vs[1], vs[2], EndsWith(vs[1], vs[2]))
+      [] op = "str_contains"    -> Strict2(vs[1], vs[2], ContainsStr(vs[1], vs[2]))
+      [] op = "str_replace_all" -> IF SeqAnyU(vs) THEN UNDEF ELSE IF SeqAnyN(vs) THEN NULL
+                                   ELSE IF vs[2] = <<>> THEN UNDEF ELSE ReplaceAllStr(vs[1], vs[2], vs[3])
+      [] op = "str_len" -> Strict1(vs[1], Len(vs[1]))
       [] op = "hall" -> Fold3(TRUE, vs, TRUE)
       [] op = "hany" -> Fold3(FALSE, vs, FALSE)
       [] op = "clip" ->      \* null stays null; otherwise max(min(x, upper), lower)
@@ -305,7 +316,15 @@ CastVal(from, to, v) ==
            [] from = "float" /\ to = "int" -> RatTrunc(v)
            [] from = "bool" /\ to = "int" -> IF v THEN 1 ELSE 0
            [] from = "bool" /\ to = "float" -> RatOfInt(IF v THEN 1 ELSE 0)
-           [] OTHER -> UNDEF       \* textual casts are specified in Strings.tla / Functions1.tla
+           [] from = "int" /\ to = "str" -> IntToStr(v)
+           [] from = "float" /\ to = "str" -> RatToStr(v)
+           [] from = "str" /\ to = "int" -> ParseInt(v)
+           [] from = "str" /\ to = "float" -> ParseRat(v)
+           [] from = "datetime" /\ to = "date" -> DatetimeToDate(v)
+           [] from = "date" /\ to = "datetime" -> DateToDatetime(v)
+           [] from = "date" /\ to = "str" -> DateToStr(v)
+           [] from = "datetime" /\ to = "str" -> DatetimeToStr(v)
+           [] OTHER -> UNDEF
 
 RECURSIVE Ev(_, _, _)
 
